@@ -12,6 +12,7 @@ import (
 	"strconv"
 	"strings"
 
+	"github.com/IrineSistiana/mosdns/v5/coremain"
 	"github.com/IrineSistiana/mosdns/v5/pkg/matcher/domain"
 	"github.com/IrineSistiana/mosdns/v5/pkg/query_context"
 	"github.com/IrineSistiana/mosdns/v5/plugin/data_provider/domain_set"
@@ -35,7 +36,12 @@ var menu = []menuEntry{
 	{`^a\.`, true}, {`b$`, true}, {`a.b`, true}, {`\.a\.`, true}, {`A`, true}, {`^ab`, true},
 	{`b\.a$`, true}, {`(`, false}, {`[a`, false}, {`.`, true}, {`a:?\.`, true}, {`^a.`, true}, {`^b$`, true},
 	{`^[a-z.]+$`, true}, // 13: only lower-case letters and dots: notices a name that was not lower-cased
+	{`^\D`, true},       // 14: an upper-case escape: the expression itself must not be lower-cased (^\d is the opposite)
 }
+
+// caseSensitiveRe: menu entries whose meaning changes when the expression is lower-cased
+var caseSensitiveRe = []string{`A`, `^\D`}
+
 var menuRe []*regexp.Regexp
 
 func initMenu() {
@@ -392,6 +398,225 @@ func runLoad(w *hx.Writer, id string, which int, dflt string, entries []string, 
 	})
 }
 
+// ---------- domain sets assembled from members ----------
+
+type setDef struct {
+	exps []string
+	text string
+	refs []int // indices of earlier sets
+}
+
+// reachableRules: the rules of the sets reachable from top, each set once, members in
+// the order the provider walks them (the driver's own reading of "the rules of the set").
+func reachableRules(sets []setDef, meaning [][]irule, top int) []irule {
+	seen := map[int]bool{}
+	var out []irule
+	var walk func(i int)
+	walk = func(i int) {
+		if seen[i] {
+			return
+		}
+		seen[i] = true
+		out = append(out, meaning[i]...)
+		for _, j := range sets[i].refs {
+			walk(j)
+		}
+	}
+	walk(top)
+	return out
+}
+
+// runCompose: via = 0 GetDomainMatcher().Match on the set, 1 a qname matcher "$top",
+// 2 a qname matcher with its own expressions followed by "$top".
+func runCompose(w *hx.Writer, id string, sets []setDef, meaning [][]irule, top, via int, extra []string, extraMeaning []irule, names []string) {
+	failed := false
+	var os_ []obs
+	p := hx.Recover(func() {
+		plugins := make(map[string]any)
+		mosdns := coremain.NewTestMosdnsWithPlugins(plugins)
+		var built []*domain_set.DomainSet
+		for i, d := range sets {
+			tag := fmt.Sprintf("set%d", i)
+			args := &domain_set.Args{Exps: d.exps, Files: []string{writeFile(fmt.Sprintf("%s_%d", id, i), d.text)}}
+			for _, j := range d.refs {
+				args.Sets = append(args.Sets, fmt.Sprintf("set%d", j))
+			}
+			ds, err := domain_set.NewDomainSet(coremain.NewBP(tag, mosdns), args)
+			if err != nil {
+				failed = true
+				return
+			}
+			plugins[tag] = ds
+			built = append(built, ds)
+		}
+		var match func(n string) (bool, error)
+		if via == 0 {
+			dm := built[top].GetDomainMatcher()
+			match = func(n string) (bool, error) { _, ok := dm.Match(n); return ok, nil }
+		} else {
+			arg := fmt.Sprintf("$set%d", top)
+			if via == 2 {
+				arg = strings.Join(append(append([]string{}, extra...), arg), " ")
+			}
+			qm, err := qname.QuickSetup(sequence.NewBQ(mosdns, mosdns.Logger()), arg)
+			if err != nil {
+				failed = true
+				return
+			}
+			match = func(n string) (bool, error) {
+				return qm.Match(context.Background(), query_context.NewContext(question(n)))
+			}
+		}
+		for _, n := range names {
+			ok, err := match(n)
+			if err != nil {
+				os_ = append(os_, panicObs)
+				continue
+			}
+			o := obs{ok: ok}
+			if ok {
+				o.v = []int{}
+			}
+			os_ = append(os_, o)
+		}
+	})
+	if p != nil {
+		failed = false
+		os_ = nil
+		for range names {
+			os_ = append(os_, panicObs)
+		}
+	}
+	qn := names
+	if failed {
+		qn, os_ = nil, nil
+	}
+	sl := make([]string, len(sets))
+	var sdesc []string
+	for i, d := range sets {
+		sl[i] = hx.Tuple(strsLit(d.exps), hx.Str(d.text), hx.NList(d.refs))
+		sdesc = append(sdesc, fmt.Sprintf("set%d exps=%q file=%q sets=%v", i, d.exps, d.text, d.refs))
+	}
+	intended := reachableRules(sets, meaning, top)
+	if via == 2 {
+		intended = append(intended, extraMeaning...)
+	} else {
+		extra = nil
+	}
+	w.Emit("compose", hx.Case{
+		ID: id,
+		Coq: hx.App("CCompose", hx.List(sl), hx.Ni(top), hx.Ni(via), strsLit(extra), hx.Bool(failed),
+			irulesLit(intended), queriesLit(qn, os_)),
+		Desc: map[string]any{"kind": "compose", "sets": sdesc, "top": top, "via": via, "extra": extra, "names": names, "failed": failed},
+		FKey: "compose",
+	})
+}
+
+// genCompose: 2..6 sets, each with its own rules of random types and references to earlier
+// sets (so references nest), consumed through the last one; one name per reachable member
+// derived from that member's rules, plus unrelated names.
+func genCompose(w *hx.Writer, id string, r *hx.RNG, maxDepth int) {
+	n := r.Range(2, 6)
+	distinct := r.Bool() // every member's patterns carry a label of its own
+	sets := make([]setDef, n)
+	meaning := make([][]irule, n)
+	for i := 0; i < n; i++ {
+		onlyKind := 0
+		if r.Chance(1, 2) {
+			onlyKind = r.Range(1, 4)
+		}
+		k := r.Range(1, 3)
+		if i > 0 && r.Chance(1, 5) {
+			k = 0 // no rules of its own, only references
+		}
+		var lines []string
+		for j := 0; j < k; j++ {
+			s := genRule(r, "domain", onlyKind, 3, false)
+			if s == "" || strings.ContainsAny(s, " \t#") {
+				continue
+			}
+			if distinct {
+				if m := meaningOf("domain", s, []int{}); m != nil && m.kind != 3 {
+					s = strings.TrimSuffix(s, ".")
+					if m.kind == 4 {
+						s += "q" + strconv.Itoa(i)
+					} else {
+						s += ".q" + strconv.Itoa(i)
+					}
+				}
+			}
+			m := meaningOf("domain", s, []int{})
+			if m == nil {
+				continue
+			}
+			meaning[i] = append(meaning[i], *m)
+			if r.Bool() {
+				sets[i].exps = append(sets[i].exps, s)
+			} else {
+				lines = append(lines, decorate(r, s))
+			}
+		}
+		// exps are loaded before the file: keep the generator's order of meaning irrelevant (sets are unions)
+		sets[i].text = strings.Join(lines, "\n")
+		if i > 0 {
+			nr := r.Intn(4) // 0..3 references
+			if k == 0 && nr == 0 {
+				nr = 1
+			}
+			for _, j := range r.Perm(i) {
+				if len(sets[i].refs) < nr {
+					sets[i].refs = append(sets[i].refs, j)
+				}
+			}
+		}
+	}
+	// the top set references at least one other set
+	top := n - 1
+	if len(sets[top].refs) == 0 {
+		sets[top].refs = []int{r.Intn(top)}
+	}
+	via := r.Intn(3)
+	var extra []string
+	var extraMeaning []irule
+	if via == 2 {
+		for j := r.Range(0, 2); j > 0; j-- {
+			s := genRule(r, "domain", 0, 3, false)
+			if s == "" || strings.ContainsAny(s, " \t#$&") {
+				continue
+			}
+			if m := meaningOf("domain", s, []int{}); m != nil {
+				extra = append(extra, s)
+				extraMeaning = append(extraMeaning, *m)
+			}
+		}
+	}
+	// one name per reachable member, derived from its rules
+	var names []string
+	seen := map[int]bool{}
+	var walk func(i int)
+	walk = func(i int) {
+		if seen[i] {
+			return
+		}
+		seen[i] = true
+		if len(meaning[i]) > 0 {
+			names = append(names, genNames(r, meaning[i], 1, maxDepth, false)...)
+			if len(names) < 8 && r.Chance(1, 3) {
+				names = append(names, genNames(r, meaning[i], 1, maxDepth, false)...)
+			}
+		}
+		for _, j := range sets[i].refs {
+			walk(j)
+		}
+	}
+	walk(top)
+	names = append(names, genNames(r, nil, 1, maxDepth, false)...)
+	if len(names) > 9 {
+		names = names[:9]
+	}
+	runCompose(w, id, sets, meaning, top, via, extra, extraMeaning, names)
+}
+
 // ---------- generators ----------
 
 var alphabet = []string{"a", "b", "ab"}
@@ -495,6 +720,9 @@ var brokenNames = []string{"", ".", "..", ".a", "a..", "a..b", "..a", "b.a..", "
 func genPattern(r *hx.RNG, kind int, maxDepth int, malformed bool) string {
 	switch kind {
 	case 3:
+		if r.Chance(1, 4) {
+			return hx.Pick(r, caseSensitiveRe)
+		}
 		return menu[r.Intn(len(menu))].expr
 	case 4:
 		if malformed && r.Chance(1, 3) {
@@ -617,6 +845,29 @@ func genRuleSet(r *hx.RNG, dflt string, onlyKind, maxRules, maxDepth int, malfor
 			if typ == "" {
 				k = kindOfDefault(dflt)
 			}
+			if (k == 1 || k == 2) && onlyKind == 0 && r.Chance(2, 5) {
+				// the counterpart of the other type covering the same name, other value:
+				// full rule at or below a domain rule, domain rule at or above a full rule
+				other := 3 - k
+				switch r.Intn(3) {
+				case 0:
+					if other == 1 {
+						pat = pickLabel(r) + "." + pat
+					} else if i := strings.IndexByte(pat, '.'); i >= 0 && i+1 < len(pat) {
+						pat = pat[i+1:]
+					}
+				case 1:
+					pat = mixCase(r, pat)
+				}
+				typ, ok = typeNames[other], true
+				if kindOfDefault(dflt) == other && r.Bool() {
+					typ, ok = "", false
+					if strings.Contains(pat, ":") {
+						typ, ok = "", true
+					}
+				}
+				k = 3 // no further change below
+			}
 			if k != 3 {
 				switch r.Intn(4) {
 				case 0:
@@ -664,9 +915,9 @@ func genNames(r *hx.RNG, rs []irule, k, maxDepth int, malformed bool) []string {
 			}
 		}
 		switch c := r.Intn(10); {
-		case base != "" && c == 0:
+		case base != "" && c <= 1:
 			n = base
-		case base != "" && c <= 2:
+		case base != "" && c == 2:
 			n = strings.Join(genLabels(r, 2), ".") + "." + base
 		case base != "" && c == 3:
 			n = hx.Pick(r, []string{"a", "b", "ab", "a.a", "b.b"}) + base // glued: string suffix only
@@ -710,7 +961,7 @@ func decorate(r *hx.RNG, s string) string {
 }
 
 func genLoad(w *hx.Writer, id string, r *hx.RNG, maxRules, maxDepth int) {
-	which := hx.Pick(r, []int{0, 1, 1, 2, 3, 4, 4})
+	which := hx.Pick(r, []int{0, 1, 1, 2, 2, 3, 4, 4})
 	dflt := "full"
 	switch which {
 	case 0:
@@ -825,6 +1076,14 @@ var catalogue = []catCase{
 	{"", []rule{R("keyword:a", 4), R("regexp:.", 3), R("domain:a.b", 2), R("full:a.b", 1)}, []string{"a.b", "b.a.b", "b", "a", "ab.ab"}},
 	{"", []rule{R("keyword:a", 4), R("domain:a.b", 2), R("full:b.a.b", 1)}, []string{"a.b", "b.a.b", "b", "a", "ab.ab", "b.b"}},
 	{"", []rule{R("keyword:b", 4), R("regexp:^a\\.", 3)}, []string{"a.b", "b.a", "a", "a.a"}},
+	// a full rule and a domain rule covering the same name carry different values: every insertion order
+	{"", []rule{R("domain:a.b", 1), R("full:a.b", 2)}, []string{"a.b", "A.B.", "s.a.b", "b"}},
+	{"", []rule{R("full:a.b", 2), R("domain:a.b", 1)}, []string{"a.b", "A.B.", "s.a.b", "b"}},
+	{"", []rule{R("domain:b", 1), R("full:a.b", 2), R("full:b", 3)}, []string{"a.b", "b", "s.b", "s.a.b"}},
+	{"", []rule{R("full:b", 3), R("full:a.b", 2), R("domain:b", 1)}, []string{"a.b", "b", "s.b", "s.a.b"}},
+	{"", []rule{R("domain:b", 1), R("domain:a.b", 4), R("full:ab.a.b", 2), R("full:A.B.", 5)}, []string{"ab.a.b", "a.b", "s.a.b", "b"}},
+	{"full", []rule{R("domain:a.b", 1), R("a.b", 2), R("ab.a.b", 3), R(":b.a.b", 4)}, []string{"a.b", "ab.a.b", "b.a.b", "s.a.b"}},
+	{"full", []rule{R("a.b", 2), R("ab.a.b", 3), R("domain:a.b", 1)}, []string{"a.b", "ab.a.b", "s.a.b"}},
 	// full: whole name only, case and dot on both sides, last add wins
 	{"", []rule{R("full:A.B.", 1), R("full:b", 2), R("full:B", 3)}, []string{"a.b", "A.b.", "b.a.b", "b", "B.", "ab", "a.b.."}},
 	// keyword: any substring, normalised like names
@@ -1031,10 +1290,126 @@ func main() {
 			names    []string
 		}{which, "domain", []string{"domain:."}, "", []irule{{2, ".", []int{}}}, []string{"a", "b.a"}})
 	}
+	type lc = struct {
+		which    int
+		dflt     string
+		entries  []string
+		text     string
+		intended []irule
+		names    []string
+	}
+	// what is case sensitive in a rule text: the regexp expression (taken as written) and the
+	// type prefix ("FULL:" is no type) -- through every loader
+	for which := 0; which <= 4; which++ {
+		val := ""
+		v := []int{}
+		switch which {
+		case 2:
+			val, v = " 10.0.0.7", []int{7}
+		case 3:
+			val, v = " v7", []int{7}
+		}
+		d := "domain"
+		if which == 2 || which == 3 {
+			d = "full"
+		}
+		names := []string{"a.b.", "b.", "ab.a", "B.B."}
+		for _, re := range caseSensitiveRe {
+			loadCat = append(loadCat, lc{which, d, []string{"regexp:" + re + val}, "", []irule{{3, re, v}}, names})
+			loadCat = append(loadCat, lc{which, d, nil, " regexp:" + re + val + " # x\n", []irule{{3, re, v}}, names})
+		}
+		for _, bad := range []string{"FULL:a.b", "Domain:a.b", "REGEXP:^ab", "Keyword:a"} {
+			loadCat = append(loadCat, lc{which, d, []string{bad + val}, "", nil, names})
+			loadCat = append(loadCat, lc{which, d, nil, bad + val + "\n", nil, names})
+		}
+	}
+	// value precedence through the valued loaders: a full rule and a domain rule cover the same
+	// name with different values, in every order, as entries and as file lines
+	for _, which := range []int{2, 3} {
+		val := func(v int) string {
+			if which == 2 {
+				return "10.0.0." + strconv.Itoa(v)
+			}
+			return "v" + strconv.Itoa(v)
+		}
+		pairs := [][2]irule{
+			{{2, "a.b", []int{1}}, {1, "a.b", []int{2}}},
+			{{2, "a.b", []int{1}}, {1, "s.a.b", []int{2}}},
+			{{2, "B", []int{3}}, {1, "a.b.", []int{4}}},
+		}
+		names := []string{"a.b.", "A.B.", "s.a.b.", "x.s.a.b.", "b.", "x.b."}
+		for _, p := range pairs {
+			for order := 0; order < 2; order++ {
+				first, second := p[0], p[1]
+				if order == 1 {
+					first, second = second, first
+				}
+				line := func(ir irule, explicit bool) string {
+					prefix := typeNames[ir.kind] + ":"
+					if ir.kind == 1 && !explicit {
+						prefix = "" // the loaders' default type is full
+					}
+					return prefix + ir.pat + " " + val(ir.v[0])
+				}
+				for variant := 0; variant < 3; variant++ {
+					var entries []string
+					text := ""
+					switch variant {
+					case 0: // both as entries
+						entries = []string{line(first, true), line(second, false)}
+					case 1: // both in the file
+						text = line(first, false) + "\n" + line(second, true) + "\n"
+					default: // one each
+						entries = []string{line(first, false)}
+						text = line(second, true)
+					}
+					loadCat = append(loadCat, lc{which, "full", entries, text, []irule{first, second}, names})
+				}
+			}
+		}
+	}
 	for i, c := range loadCat {
 		id := fmt.Sprintf("cat:load:%d", i)
 		if o.Want(id) {
 			runLoad(w, id, c.which, c.dflt, c.entries, c.text, c.intended, c.names)
+		}
+	}
+
+	// sets of sets: own rules + referenced sets, two referenced sets, nested references
+	plain := func(d setDef) []irule {
+		var out []irule
+		for _, e := range append(append([]string{}, d.exps...), strings.Split(d.text, "\n")...) {
+			if e == "" {
+				continue
+			}
+			if m := meaningOf("domain", e, []int{}); m != nil {
+				out = append(out, *m)
+			}
+		}
+		return out
+	}
+	composeSets := []setDef{
+		{exps: []string{"a.b", "full:x.a"}},               // 0
+		{text: "keyword:bb\nregexp:^ab"},                  // 1
+		{exps: []string{"full:b"}, refs: []int{0, 1}},     // 2 own + two sets
+		{refs: []int{0, 1}},                               // 3 two sets
+		{refs: []int{2}},                                  // 4 nested
+		{exps: []string{"keyword:zz"}, refs: []int{4, 1}}, // 5 nested + shared member
+		{refs: []int{1, 0}},                               // 6 the other order
+		{exps: []string{"domain:."}, refs: []int{1}},      // 7 own matcher dropped (Len 0), member kept
+	}
+	composeMeaning := make([][]irule, len(composeSets))
+	for i, d := range composeSets {
+		composeMeaning[i] = plain(d)
+	}
+	composeNames := []string{"a.b", "S.A.B.", "x.a", "s.x.a", "abb.a", "ab.b.", "b", "b.b", "aa.b", "azz"}
+	for top := 2; top < len(composeSets); top++ {
+		for via := 0; via < 3; via++ {
+			id := fmt.Sprintf("cat:compose:%d:%d", top, via)
+			if o.Want(id) {
+				extra := []string{"full:b.b"}
+				runCompose(w, id, composeSets[:top+1], composeMeaning, top, via, extra, []irule{{1, "b.b", []int{}}}, composeNames)
+			}
 		}
 	}
 
@@ -1045,7 +1420,7 @@ func main() {
 			continue
 		}
 		r := hx.NewRNG(o.Seed, id)
-		switch c := r.Intn(20); {
+		switch c := r.Intn(23); {
 		case c < 11: // mix matcher, well-formed
 			rs := genRuleSet(r, genDefault(r, false), 0, maxRules, maxDepth, false)
 			runMix(w, id, rs.dflt, rs.rules, genNames(r, rs.intended, r.Range(2, 5), maxDepth, false))
@@ -1074,8 +1449,10 @@ func main() {
 				ir = append(ir, irule{kind: kind, pat: pat, v: v})
 			}
 			runSingle(w, id, kind, rules, genNames(r, ir, r.Range(2, 5), maxDepth, malformed))
-		default:
+		case c < 20:
 			genLoad(w, id, r, maxRules, maxDepth)
+		default: // domain sets assembled from members
+			genCompose(w, id, r, maxDepth)
 		}
 	}
 }
